@@ -114,6 +114,10 @@ def to_z3(v):
         return z3.IntVal(v)
     if isinstance(v, bytes):
         return bytes_val(v)
+    from fractions import Fraction
+
+    if isinstance(v, Fraction):
+        return z3.Q(v.numerator, v.denominator)
     raise Unsupported("to_z3(%r)" % (v,))
 
 
@@ -860,7 +864,9 @@ class Executor(object):
     def binop(self, op, l, r, p, ln):
         l = self.unwrap(l, p, "operand", ln) if (isinstance(l, Opt) or l is None) else l
         r = self.unwrap(r, p, "operand", ln) if (isinstance(r, Opt) or r is None) else r
-        conc = (int, bool, bytes, str, float)
+        from fractions import Fraction
+
+        conc = (int, bool, bytes, str, Fraction)
         if isinstance(l, conc) and isinstance(r, conc):
             try:
                 return {
